@@ -1,7 +1,114 @@
 import ASV.Drv.J
+import ASV.Spec.Layout
 namespace ASV.Drv.C19
-open Lean ASV ASV.Drv
+open Lean ASV ASV.Drv ASV.Packing ASV.Packing.Spec
 
-def handle (_j : Json) : R Json := throw "C19: no model yet"
+def kindOfJson (j : Json) : R Kind := do
+  match ← asStr j with
+  | "proto" => pure .proto
+  | "cand" => pure .cand
+  | "sub" => pure .sub
+  | k => throw s!"bad kind {k}"
+def kindToJson : Kind → Json
+  | .proto => "proto" | .cand => "cand" | .sub => "sub"
+
+def featOfJson (j : Json) : R Feat := do
+  let core ← match fldD j "core" Json.null with
+    | .null => pure default
+    | cj => locOfJson cj
+  return { loc := ← locOfJson (← fld j "loc"), kind := ← kindOfJson (← fld j "kind"), core := core,
+           single := boolFD j "single" false, product := (strF j "product").toOption.getD "" }
+
+def areaOfJson (j : Json) : R Area := do
+  return { start := ← intF j "start", «end» := ← intF j "end", kind := ← kindOfJson (← fld j "kind"),
+           height := ← intF j "height", nstart := ← intF j "nstart", nend := ← intF j "nend",
+           product := ← strF j "product", group := ← intF j "group" }
+def areaToJson (a : Area) : Json :=
+  jObj [("start", toJson a.start), ("end", toJson a.end), ("kind", kindToJson a.kind),
+        ("height", toJson a.height), ("nstart", toJson a.nstart), ("nend", toJson a.nend),
+        ("product", Json.str a.product), ("group", toJson a.group)]
+
+def orfOfJson (j : Json) : R Orf := do
+  return { start := ← intF j "start", «end» := ← intF j "end", strand := ← intF j "strand",
+           split := ← boolF j "split", group := ← intF j "group" }
+def orfToJson (o : Orf) : Json :=
+  jObj [("start", toJson o.start), ("end", toJson o.end), ("strand", toJson o.strand),
+        ("split", toJson o.split), ("group", toJson o.group)]
+
+def optAreas : Option (List Area) → Json
+  | none => Json.null
+  | some l => jArr (l.map areaToJson)
+
+/-- one region: model outputs, spec verdicts on the implementation's outputs, scope flags -/
+def handleRegion (j : Json) : R Json := do
+  let c : Ctx := { region := ← locOfJson (← fld j "region"), L := ← intF j "L", circular := ← boolF j "circular" }
+  let r : RegionIn := { subregions := ← listOf featOfJson (← fld j "subs"),
+                        candidates := ← listOf featOfJson (← fld j "cands"),
+                        protos := ← listOf featOfJson (← fld j "protos") }
+  let genes ← listOf locOfJson (← fld j "genes")
+  let views := genes.map (geneView c)
+  let impl ← fld j "impl"
+  let implAreas : Option (List Area) ← match fldD impl "areas" Json.null with
+    | .null => pure none
+    | aj => do pure (some (← listOf areaOfJson aj))
+  let implOrfs : Option (List Orf) ← match fldD impl "orfs" Json.null with
+    | .null => pure none
+    | oj => do pure (some (← listOf orfOfJson oj))
+  let implAnn : Option (Int × Int) := match (intF impl "start").toOption, (intF impl "end").toOption with
+    | some s, some e => some (s, e)
+    | _, _ => none
+  let ann := announced c
+  let specAreas := match implAreas with
+    | none => jObj [("in_range", toJson false), ("rows_disjoint", toJson false), ("complete", toJson false)]
+    | some out => jObj [("in_range", toJson (areasInRange c out)),
+                        ("rows_disjoint", toJson (decide (RowsDisjoint out))),
+                        ("complete", toJson (completeB c.L r out))]
+  let placed (orfs : List Orf) : Bool :=
+    -- genes drawn whole are placed by genome distance from the region's first base
+    match (parseOrfsGo none orfs) with
+    | none => false
+    | some ds => ds.length == views.length &&
+      (ds.zip views).all fun (d, v) => match d with
+        | .whole o => orfPlaced c v o
+        | .halves _ _ => true
+  let specOrfs := match implOrfs with
+    | none => jObj [("in_range", toJson false), ("complete", toJson false), ("placed", toJson false)]
+    | some orfs => jObj [("in_range", toJson (orfsInRange c orfs)),
+                         ("complete", toJson (orfsCompleteB c.L views orfs)),
+                         ("placed", toJson (placed orfs))]
+  return jObj [
+    ("model", jObj [("areas", optAreas (buildAreaRows c r)),
+                    ("orfs", jArr ((convertCds c views).map orfToJson)),
+                    ("start", toJson ann.1), ("end", toJson ann.2)]),
+    ("spec", jObj [("areas", specAreas), ("orfs", specOrfs),
+                   ("announced", toJson (match implAnn with | some a => announcedOk c a | none => false)),
+                   ("protos_sorted", toJson (!c.regionCrosses || sortedByKey c r.protos))]),
+    ("scope_areas", toJson (inputOK c r)),
+    ("scope_genes", toJson (regionOK c && views.all (viewOK c))),
+    ("info", jObj [("extend", toJson c.extend), ("region_crosses", toJson c.regionCrosses),
+                   ("n_crossing", toJson ((toDraw r).filter (·.crosses)).length),
+                   ("n_gene_crossing", toJson (views.filter (·.crosses)).length)])]
+
+/-- pack alone (unit level): rows as lists of indices into the input -/
+def handlePack (j : Json) : R Json := do
+  let feats ← listOf featOfJson (← fld j "areas")
+  let L ← intF j "L"
+  -- tag each feature by its index through the product field
+  let tagged := feats.zipIdx.map fun (f, i) => { f with product := toString i }
+  let rows := pack tagged (intFD j "length" (-1))
+  let rowsJ := match rows with
+    | none => Json.null
+    | some rs => jArr (rs.map fun r => jObj [("start", toJson r.start), ("end", toJson r.end),
+        ("contents", jArr (r.contents.map fun f => toJson f.product.toNat!))])
+  let c : Ctx := { region := .simple ⟨0, L, .fwd⟩, L := L, circular := true }
+  return jObj [("rows", rowsJ), ("scope", toJson (feats.all fun f => collOK L f.loc)),
+               ("region_ok", toJson (regionOK c))]
+
+def handle (j : Json) : R Json := do
+  match (strF j "kind").toOption.getD "regions" with
+  | "pack" => handlePack j
+  | _ => do
+    let regions ← listOf handleRegion (← fld j "regions")
+    return jObj [("regions", jArr regions)]
 
 end ASV.Drv.C19
